@@ -57,9 +57,12 @@ fn g_order(bundle: &str, paths: &[String]) -> Vec<String> {
     pos.into_iter().map(|x| x.1).collect()
 }
 
-pub fn run(tier: &str, seed: u64, out: &mut Out) {
+/// `order`: the groups are always GENERATED in the same sequence; they are COMPILED in this process in index order (0),
+/// in reverse (1), or the script-less groups first (2): what a group emits must not depend on what the process compiled before
+pub fn run(tier: &str, seed: u64, order: usize, out: &mut Out) {
     let mut rng = Rng::new(seed ^ 0xc20);
     let n_groups = if tier == "thorough" { 40 } else { 10 };
+    let mut prepared = vec![];
     for gi in 0..n_groups {
         let k = 2 + (gi % 5); // 2..6 files
         let mut g = gen_group(&mut rng, k, 2, false);
@@ -78,8 +81,55 @@ pub fn run(tier: &str, seed: u64, out: &mut Out) {
             g.scripts.push(("s/a".into(), "exports.a = 1".into()));
             g.scripts.push(("b".into(), "exports.b = 1".into()));
         }
+        // a file with several imports whose targets are all in the group (the import chain of the emitted code)
+        if g.files.len() >= 3 && gi % 2 == 0 {
+            let targets: Vec<String> = g.files.iter().map(|x| x.0.clone()).collect();
+            for (fi, f) in g.files.iter_mut().enumerate() {
+                let mut head = String::new();
+                for (ti, t) in targets.iter().enumerate() {
+                    if ti != fi {
+                        head.push_str(&format!("<import src=\"/{}\"/>", t));
+                    }
+                }
+                head.push_str(&format!("<template name=\"shared\">from {}</template><template name=\"own{}\">o</template>", fi, fi));
+                f.1 = format!("{}{}<template is=\"shared\"/><template is=\"own{}\"/>", head, f.1, (fi + 1) % targets.len());
+            }
+        }
         let paths: Vec<String> = g.files.iter().map(|x| x.0.clone()).collect();
         let perms = permutations(g.files.len(), &mut rng, 12);
+        prepared.push((gi, k, g, paths, perms));
+    }
+    // two more groups: one without any script (no external script, no inline module) and one with both
+    {
+        let mut plain = gen_group(&mut rng, 2, 1, false);
+        plain.scripts.clear();
+        for (k, f) in plain.files.iter_mut().enumerate() {
+            f.1 = format!("<view id=\"{}\">{{{{ a }}}}<text>{{{{ b.c }}}}</text></view>", k);
+        }
+        let paths: Vec<String> = plain.files.iter().map(|x| x.0.clone()).collect();
+        let perms = permutations(plain.files.len(), &mut rng, 12);
+        prepared.push((n_groups, 2, plain, paths, perms));
+        let mut scripted = gen_group(&mut rng, 2, 1, false);
+        scripted.scripts = vec![("lib/s".into(), "exports.s = 1".into())];
+        for (k, f) in scripted.files.iter_mut().enumerate() {
+            f.1 = format!("<wxs module=\"m\">exports.x = {}</wxs><wxs module=\"s\" src=\"/lib/s\"/><view>{{{{ m.x }}}}{{{{ s.s }}}}</view>", k);
+        }
+        let paths: Vec<String> = scripted.files.iter().map(|x| x.0.clone()).collect();
+        let perms = permutations(scripted.files.len(), &mut rng, 12);
+        prepared.push((n_groups + 1, 2, scripted, paths, perms));
+    }
+    let has_script = |i: usize| -> bool { !prepared[i].2.scripts.is_empty() || prepared[i].2.files.iter().any(|f| f.1.contains("<wxs")) };
+    let mut idx: Vec<usize> = (0..prepared.len()).collect();
+    match order {
+        1 => idx.reverse(),
+        2 => idx.sort_by_key(|i| (has_script(*i), *i)),
+        _ => {}
+    }
+    let mut lines: Vec<(usize, Vec<String>)> = vec![];
+    for pi_ in idx {
+        let (gi, k, g, paths, perms) = &prepared[pi_];
+        let (gi, k) = (*gi, *k);
+        let mut glines: Vec<String> = vec![];
         let mut reference: Option<Vec<(String, String)>> = None;
         let mut n_diff = 0;
         let mut first_diff = String::new();
@@ -165,15 +215,23 @@ pub fn run(tier: &str, seed: u64, out: &mut Out) {
         let import_equal = imported_all.iter().all(|imported| imported.iter().zip(r.iter()).all(|(a, b)| a.1 == b.1));
         let digest: Vec<String> = r.iter().map(|(k, s)| format!("{}={:016x}", k, fnv(s))).collect();
         let bundle = &r.iter().find(|x| x.0 == "tmpl_gen_object_groups").unwrap().1;
-        let order = g_order(bundle, &paths);
-        out.raw(&format!(
+        let order = g_order(bundle, paths);
+        glines.push(format!(
             "GROUP {} files={} perms={} perm_diffs={} import_equal={} first_diff={:?} digest={}",
             gi, k, perms.len(), n_diff, import_equal, first_diff, digest.join(",")
         ));
         // model case: emission order of the G[...] assignments
         let keys: Vec<String> = paths.iter().map(|p| enc(p)).collect();
         let obs: Vec<String> = order.iter().map(|p| enc(p)).collect();
-        out.case(&["sort_keys", &keys.join(";")], &obs.join(";"));
+        glines.push(format!("sort_keys\t{}\t=>\t{}", keys.join(";"), obs.join(";")));
+        lines.push((gi, glines));
+    }
+    // printed in group order, whatever the compilation order was
+    lines.sort_by_key(|x| x.0);
+    for (_, gl) in lines {
+        for l in gl {
+            out.raw(&l);
+        }
     }
     // stylesheets: same input and options twice in this process (cross-process comparison is done by the caller)
     let css_inputs = [
